@@ -1,6 +1,7 @@
 package main
 
 import (
+	"os"
 	"fmt"
 	"go/ast"
 	"go/token"
@@ -246,7 +247,20 @@ func (b *bEnv) call(n *ast.CallExpr) bVal {
 		}
 		return n.Args[i]
 	}
+	if strings.HasPrefix(fn.Name, "uf_") {
+		// uf_<name>(t1, ..., tn): an uninterpreted integer function of integer terms.  A trusted contract
+		// uses it to NAME what an opaque callee computes, so that a caller's contract can refer to it
+		var ts []*Term
+		for i := range n.Args {
+			ts = append(ts, b.Term(n.Args[i]))
+		}
+		return bScalar{App(fmt.Sprintf("%s%d", fn.Name, len(ts)), SInt, ts...)}
+	}
 	switch fn.Name {
+	case "contentid":
+		// an integer naming the contents of a value (access path + store version, scalars by value)
+		ts := b.e.contentTerms(b.state(), b.Eval(arg(0)), arg(0))
+		return bScalar{App(fmt.Sprintf("contentid%d", len(ts)), SInt, ts...)}
 	case "old":
 		nb := *b
 		nb.inOld = true
@@ -302,6 +316,11 @@ func (b *bEnv) call(n *ast.CallExpr) bVal {
 			return bScalar{b.state().norm(a.cap)}
 		}
 		panic(verr("spec(B): cap of %s is not tracked", exprString(arg(0))))
+	case "cmpval":
+		// the outcome of comparing two values (rlwe.Scale.Cmp ...): an uninterpreted function of the
+		// identity of their contents, so that a contract can name the branch a comparison selected
+		ts := append(b.e.contentTerms(b.state(), b.Eval(arg(0)), arg(0)), b.e.contentTerms(b.state(), b.Eval(arg(1)), arg(1))...)
+		return bScalar{App(fmt.Sprintf("cmpval%d", len(ts)), SInt, ts...)}
 	case "sameval":
 		// deep equality of two values of the same type: scalars equal, pointers to the same location,
 		// slices over the same array with the same length, structs field by field
@@ -485,6 +504,9 @@ func (e *bEngine) contentTerms(st *bState, v bVal, x ast.Expr) []*Term {
 		}
 		return []*Term{ConstI(int64(e.reg.idFor("content:iface:" + a.sym)))}
 	case *bStruct:
+		if os.Getenv("LVC_DEBUG") != "" {
+			fmt.Fprintf(os.Stderr, "content %s: %s#%d -> %d\n", exprString(x), a.sym, a.ver, e.reg.idFor(fmt.Sprintf("content:%s#%d", a.sym, a.ver)))
+		}
 		return []*Term{ConstI(int64(e.reg.idFor(fmt.Sprintf("content:%s#%d", a.sym, a.ver))))}
 	case bSlice:
 		if a.nil_ {
